@@ -121,6 +121,15 @@ static void setup_state(int state, enum cl_kind rkind)
 	if (xp_param("third", 1) && state != 6) {
 		W = jx_open(rkind == CL_WS ? CL_RAW : CL_WS);
 	}
+	if (state >= 1 && xp_param("passwd", 0)) {
+		/* in the populated states the requester is already authenticated: passwd and a repeated authenticate reach their success paths */
+		jx_sendf(R, "{\"id\":\"r0\",\"method\":\"authenticate\",\"params\":{\"user\":\"u\",\"password\":\"p\"}}");
+		jx_settle();
+		if (!jx_is_success(jx_find_response_str(R, "r0", 0))) {
+			jx_log_transcripts();
+			xp_fail("setup-failed", "scenario preamble: the requester could not authenticate");
+		}
+	}
 	if (state >= 1) {
 		jx_sendf(Y, "{\"id\":\"y1\",\"method\":\"add\",\"params\":{\"path\":\"ys\",\"value\":1}}");
 		jx_sendf(Y, "{\"id\":\"y2\",\"method\":\"add\",\"params\":{\"path\":\"ym\"}}");
